@@ -792,7 +792,7 @@ var vrtIntrinsics = map[string]intrinsicFn{
 		ex.fps = ex.fps[:len(ex.fps)-1]
 		n := int64(0)
 		for _, w := range fp.writes {
-			if strings.Contains(w, "@zzh") || strings.Contains(w, "@zzvrt") || strings.Contains(w, "/zz_") {
+			if strings.Contains(w, "@zzh") || strings.Contains(w, "@zzvrt") || strings.Contains(w, "/zz_") || strings.HasSuffix(w, "@append") || strings.HasSuffix(w, "@clone") {
 				continue // the harness's own stores
 			}
 			ok := false
@@ -868,6 +868,9 @@ var vrtIntrinsics = map[string]intrinsicFn{
 	},
 	"TimedOK": func(ex *Exec, _ *ssa.Function, a []Value, _ ssa.Instruction) Value {
 		return true
+	},
+	"Concurrently": func(ex *Exec, _ *ssa.Function, a []Value, _ ssa.Instruction) Value {
+		return nil
 	},
 	"Concretize": func(ex *Exec, _ *ssa.Function, a []Value, _ ssa.Instruction) Value {
 		return ex.concInt(a[0], "Concretize")
